@@ -560,6 +560,9 @@ pub struct Params {
     pub sub: u8,
 }
 
+/// `--burst=1` of a generating run: large buffers / limits and bursts of calls.
+pub static GEN_BURST: std::sync::atomic::AtomicU8 = std::sync::atomic::AtomicU8::new(0);
+
 /// `--sub=` of a generating run (0 none, 1 formatting, 2 OpenTelemetry).
 pub static GEN_SUB: std::sync::atomic::AtomicU8 = std::sync::atomic::AtomicU8::new(0);
 
@@ -679,12 +682,37 @@ struct Gen {
     deadlines: Vec<u64>,
     ncalls: u64,
     /// an op the generator has decided to emit next (targeted fault placement)
-    forced: Option<Op>,
+    forced: std::collections::VecDeque<Op>,
 }
 
 fn gen_op(rng: &mut Rng, cl: &Client, g: &mut Gen, p: &Params) -> Op {
-    if let Some(op) = g.forced.take() {
+    if let Some(op) = g.forced.pop_front() {
         return op;
+    }
+    // a burst: many calls queued and abandoned at once, then a live one (work bounds, batch limits)
+    if GEN_BURST.load(Ordering::SeqCst) != 0 && g.ncalls + 40 < 120 && rng.chance(1, 12) && !cl.handle_ids().is_empty() {
+        let h = *rng.pick(&cl.handle_ids());
+        let n = 12 + rng.below(30);
+        let abandon = rng.chance(1, 2);
+        let first = cl.calls.len();
+        let d = g.now + 1_000_000_000 + rng.below(3) * 500_000;
+        for i in 0..n {
+            g.ncalls += 1;
+            g.forced.push_back(Op::Call { h, d: d as u128, tid: 100 + g.ncalls as u128, span: 7000 + g.ncalls, sampled: false, body: 500 + g.ncalls });
+            g.forced.push_back(Op::PollCall(first + i as usize));
+        }
+        if abandon {
+            for i in 0..n {
+                g.forced.push_back(Op::DropCall(first + i as usize, None));
+            }
+        } else {
+            g.deadlines.push(d);
+        }
+        g.ncalls += 1;
+        g.forced.push_back(Op::Call { h, d: (g.now + 3_600_000_000_000) as u128, tid: 100 + g.ncalls as u128, span: 7000 + g.ncalls, sampled: false, body: 500 + g.ncalls });
+        g.forced.push_back(Op::PollCall(first + n as usize));
+        g.forced.push_back(Op::PollDispatch);
+        return g.forced.pop_front().unwrap();
     }
     let live = cl.live_calls();
     let woken_calls: Vec<usize> = live.iter().copied().filter(|c| cl.call_woken(*c)).collect();
@@ -693,7 +721,7 @@ fn gen_op(rng: &mut Rng, cl: &Client, g: &mut Gen, p: &Params) -> Op {
     let d_pollable = if p.wo { cl.dispatch_woken() } else { cl.dispatch_alive() };
     let pollable_calls = if p.wo { woken_calls.clone() } else { live.clone() };
     let w = [
-        if handles.is_empty() || g.ncalls >= 14 { 0 } else { 14 },       // 0 call
+        if handles.is_empty() || g.ncalls >= if GEN_BURST.load(Ordering::SeqCst) != 0 { 120 } else { 14 } { 0 } else { 14 },       // 0 call
         if pollable_calls.is_empty() { 0 } else { 16 },                    // 1 poll-call
         if live.is_empty() { 0 } else { 7 },                               // 2 drop-call
         if d_pollable { 24 } else { 0 },                                   // 3 poll-dispatch
@@ -751,7 +779,7 @@ fn gen_op(rng: &mut Rng, cl: &Client, g: &mut Gen, p: &Params) -> Op {
             };
             // a write fault aimed at the cancellation this drop is about to queue
             if p.faults && rng.chance(1, 4) {
-                g.forced = Some(Op::Fault("send"));
+                g.forced.push_back(Op::Fault("send"));
             }
             Op::DropCall(c, site)
         }
@@ -821,7 +849,7 @@ pub fn run_script(out: &mut Out, idx: u64, p: &Params, rng: &mut Rng, script: Op
     simt::take_log();
     let _sub = install_subscriber(p.sub);
     let mut cl = Client::new("d0", p.max, p.buf, p.cap, p.coupled);
-    let mut g = Gen { sent_ids: vec![], answered: vec![], now: 0, deadlines: vec![], ncalls: 0, forced: None };
+    let mut g = Gen { sent_ids: vec![], answered: vec![], now: 0, deadlines: vec![], ncalls: 0, forced: Default::default() };
     let mut i = 0usize;
     loop {
         let op = match script {
@@ -865,9 +893,9 @@ pub fn generate(out: &mut Out, seed: u64, scripts: u64, len: usize, wo: bool, fa
     for idx in 0..scripts {
         let mut rng = Rng::new(seed.wrapping_mul(1_000_003).wrapping_add(idx));
         let p = Params {
-            max: 1 + rng.below(3) as usize,
-            buf: 1 + rng.below(2) as usize,
-            cap: 1 + rng.below(3) as usize,
+            max: if GEN_BURST.load(Ordering::SeqCst) != 0 { *rng.pick(&[1usize, 2, 64]) } else { 1 + rng.below(3) as usize },
+            buf: if GEN_BURST.load(Ordering::SeqCst) != 0 { *rng.pick(&[24usize, 64]) } else { 1 + rng.below(2) as usize },
+            cap: if GEN_BURST.load(Ordering::SeqCst) != 0 { *rng.pick(&[1usize, 3, 64]) } else { 1 + rng.below(3) as usize },
             coupled: rng.chance(2, 3),
             wo,
             faults,
